@@ -276,3 +276,25 @@ def t11(ctx):
 
 
 RULES.append(t11)
+
+
+@rule("T12", doc="the slot set of an id is read from that id's own class record: a merged-away class keeps its frozen slot names (old handles and its union-find entry are keyed by them), so slots(id) does not jump to the leader's names")
+def t12(ctx):
+    crate = ctx.lib()
+    bs = crate.method("egraph::EGraph", "slots")
+    if len(bs) != 1:
+        raise mir.AnchorMissing("EGraph::slots")
+    b = bs[0]
+    r = b.role_of_local(0)
+    key_ok = False
+    for x in role_walk(r):
+        if isinstance(x, tuple) and x[0] == "call" and x[1] in ("index", "get") and len(x[3]) == 2 and role_mentions_field(x[3][0], "classes"):
+            k = strip_role(x[3][1])
+            key_ok = isinstance(k, tuple) and k[0] == "param"
+    finds = sorted({c.callee.name for c in b.all_calls() if c.callee and c.callee.name in ("find_id", "find_applied_id", "unionfind_get", "proven_unionfind_get", "proven_find_applied_id")})
+    ctx.check(key_ok and not finds and role_mentions_field(r, "slots"), "slots-of-the-id-given", "EGraph::slots(id) = classes[id].slots",
+              "EGraph::slots(id) canonicalises the id (%s) or does not read classes[id].slots: for a merged-away id it answers with the leader's slot names, which are unrelated to the names old handles of that id are keyed by — identity handles built from it lose all their arguments, and an invocation returned by add() for a class that an analysis hook merged away during the insertion comes back without arguments" % (", ".join(finds) or role_str(r)[:60]),
+              where_of(b))
+
+
+RULES.append(t12)
